@@ -9,6 +9,7 @@ import (
 	"bytes"
 	"fmt"
 	"math"
+	"sort"
 	"strconv"
 	"sync"
 	"time"
@@ -279,9 +280,14 @@ func miniGlyf(r *v.Rand) *sfnt.Font {
 			}
 		}
 	}
-	for name, data := range so.Tables {
+	tnames := make([]string, 0, len(so.Tables))
+	for name := range so.Tables {
+		tnames = append(tnames, name)
+	}
+	sort.Strings(tnames) // the same tables for the same seed (RunCase rebuilds the font)
+	for _, name := range tnames {
 		if r.Chance(2, 3) {
-			o.Tables[name] = data
+			o.Tables[name] = so.Tables[name]
 		}
 	}
 	mx := *so.Maxp
@@ -577,7 +583,38 @@ func buildTemplate(t tpl) (f *sfnt.Font, err error) {
 	if t.Layout != "-" {
 		installLayout(f, t.Layout, r.Fork("layout"))
 	}
+	if o, ok := f.Outlines.(*glyf.Outlines); ok {
+		passThroughTables(o, r.Fork("tables"))
+	}
 	return f, nil
+}
+
+// passThroughTables varies glyf.Outlines.Tables: the four tables sfnt.Read
+// hands through are opaque to the library, so any byte string of any length
+// is a legal value.  Lengths that are not multiples of 4 (the container pads
+// those), the boundary lengths 0, 1, 3, 4, 5 and a table longer than a read
+// buffer are all present; first and last bytes are non-zero so that a
+// truncated or zero-padded table is visible.
+func passThroughTables(o *glyf.Outlines, r *v.Rand) {
+	if o.Tables == nil || r.Chance(1, 4) {
+		return // as the template made them
+	}
+	for _, name := range []string{"cvt ", "fpgm", "prep", "gasp"} {
+		switch r.Intn(5) {
+		case 0: // keep
+		case 1:
+			delete(o.Tables, name)
+		default:
+			n := v.Pick(r, []int{1, 2, 3, 5, 6, 7, 9, 10, 11, 13, 4, 8, 0, 255, 1027})
+			b := r.Bytes(n)
+			for i := range b {
+				if i < 4 || i >= n-4 {
+					b[i] |= 0x81
+				}
+			}
+			o.Tables[name] = b
+		}
+	}
 }
 
 // ---- scalar and string fields ----
